@@ -14,6 +14,8 @@ CONSTANTS
   ParamKeys = {"minDep"}
   MaxParamChanges = 1
   Seeded = TRUE
+  Networks = {"main"}
+  Heights0 = {1}
   Defects = {"gate_deposit_denoms"}
 INVARIANT MInv_P
 INVARIANT MInv_Model
